@@ -1,9 +1,9 @@
 package an
 
 import (
-	"strings"
 	"go/token"
 	"go/types"
+	"strings"
 
 	"golang.org/x/tools/go/ssa"
 )
@@ -400,6 +400,30 @@ func GlobalWrites(fns []*ssa.Function) []GlobalWrite {
 					if name == "builtin:delete" && len(x.Common().Args) > 0 {
 						if g := rootGlobal(x.Common().Args[0], 0); g != nil {
 							out = append(out, GlobalWrite{in, g, "map delete"})
+						}
+					}
+					// a Read into a slice of a package-level array or slice fills it (io.Reader, io.ReadFull, ...)
+					if args := CallArgs(x.Common()); len(args) > 0 {
+						idx := -1
+						switch {
+						case x.Common().IsInvoke() && x.Common().Method.Name() == "Read" && len(args) >= 2:
+							idx = 1
+						case name == "io.ReadFull" || name == "io.ReadAtLeast":
+							idx = 1
+						case strings.HasSuffix(name, ").Read") && len(args) >= 2:
+							idx = 1
+						}
+						if idx >= 0 && idx < len(args) {
+							if g := sliceRootGlobal(args[idx], 0); g != nil {
+								out = append(out, GlobalWrite{in, g, "Read into its storage"})
+							}
+						}
+						// a sync.Map kept in a package variable: synchronised, but still state that outlives the call
+						switch name {
+						case "(*sync.Map).Store", "(*sync.Map).LoadOrStore", "(*sync.Map).Delete", "(*sync.Map).Swap", "(*sync.Map).LoadAndDelete", "(*sync.Map).CompareAndSwap":
+							if g := rootGlobal(args[0], 0); g != nil {
+								out = append(out, GlobalWrite{in, g, "sync.Map write"})
+							}
 						}
 					}
 					// append / copy into a slice of a package-level array or slice write its elements
